@@ -2,7 +2,9 @@
 
    in:  {"op":"reset","self":n,"ncpu":n,"nr_open":n,"cap":bool,
          "procs":[{"pid":n,"nice":i,"ioprio":n,"affinity":[n],"cpuset":[n],"rlimits":[[s,h]×16]}]}
-        {"op":"call","pid":n,"req":{"kind":"nice","value":i|null}
+        {"op":"call","pid":n,["errno":n,]["status_mask":[n]|null,]   (execution context: C errno on entry of the native
+                                                                      layer; mask shown by the cached status file)
+                             "req":{"kind":"nice","value":i|null}
                                    |{"kind":"ionice","ioclass":i|null,"value":i|null}
                                    |{"kind":"cpu_affinity","cpus":[i]|null}
                                    |{"kind":"rlimit","res":i,"limits":[i]|null}}
@@ -56,6 +58,7 @@ def jExc : Exc → Json
   | .valueError => jObj [("kind", "exc"), ("exc", "ValueError")]
   | .overflowError => jObj [("kind", "exc"), ("exc", "OverflowError")]
   | .osError e => jObj [("kind", "exc"), ("exc", "OSError"), ("errno", Json.str (errnoName e))]
+  | .osRaw n => jObj [("kind", "exc"), ("exc", "OSError"), ("errno", jNat n)]
   | .accessDenied p => jObj [("kind", "exc"), ("exc", "AccessDenied"), ("pid", jNat p)]
   | .noSuchProcess p => jObj [("kind", "exc"), ("exc", "NoSuchProcess"), ("pid", jNat p)]
   | .undefinedC => jObj [("kind", "undefined-c")]
@@ -109,7 +112,8 @@ def handle (d : DSt) (j : Json) : R (DSt × Json) := do
     let req ← field j "req" >>= parseReq
     -- the log is per call: start each call with an empty one
     let k0 : Kernel := { d.k with log := [] }
-    let (o, k') := step cfg k0 pid req
+    let x : Ctx := { errnoIn := (← optF asNat j "errno").getD 0, statusMask := ← optF (asList asNat) j "status_mask" }
+    let (o, k') := stepX cfg k0 pid x req
     let spec : Json :=
       if pid = 0 then Json.null
       else match k0.procs pid with
